@@ -120,7 +120,16 @@ type shapeT struct {
 
 var idc = 10
 
-func freshID() int { idc++; return idc }
+// freshID: ids of the generated named types.  8400..10999 holds the fixed ids of the batteries (8490, 8500.., 9000,
+// instances of the generic type 9800.., type parameters 9900..9999, which the model recognises by id): the counter,
+// which passes 8400 only in the thorough tier, skips that range.
+func freshID() int {
+	idc++
+	if idc == 8400 {
+		idc = 11000
+	}
+	return idc
+}
 
 // Shapes1: every position of every type former of depth 1.
 func Shapes1() []shapeT {
